@@ -10,7 +10,7 @@
 namespace fam {
 using sim::i64; using sim::u64;
 typedef std::vector<uint8_t> Bytes;
-const int ARENA = 1;
+static int ARENA = 1;   // arena of the allocator instance handed to constructors and readers; the heap world builds objects in two arenas (instances compare unequal)
 
 template<typename V> Bytes to_bytes(const V& v) { return Bytes(v.begin(), v.end()); }
 
